@@ -124,13 +124,15 @@ def while_nodes(src, qual):
     return [n for n in ast.walk(f.node) if isinstance(n, ast.While)]
 
 
-def install(vc, shape, table, own, loop_inv, extra_cuts=None, keep=CONFIG_FIELDS, kind='P'):
+def install(vc, shape, table, own, loop_inv, extra_cuts=None, keep=CONFIG_FIELDS, kind='P', callee_extra_pre=None):
     """contract cuts for every function of `table` (name -> (pre components, post components)), loop cuts
     (invariant `loop_inv`) for the `while` loops of the function under verification, and one obligation
     per postcondition component of `own` at its normal exit"""
     counter = {}
     cuts = {}
     for name, (pre, post) in table.items():
+        # an operation that the cascade performs on the players' behalf must find its own verifier satisfied
+        pre = tuple(pre) + tuple((callee_extra_pre or {}).get(name, ()))
         cuts[Q + name] = contract_cut(vc, shape, pre=pre, post=post, keep=keep, counter=counter, kind=kind)
     cuts.update(extra_cuts or {})
     vc.I.cuts.update(cuts)
